@@ -583,7 +583,7 @@ Proof.
   unfold validate_in_out_x. rewrite validate_optionals_x_plain. unfold validate_in_out.
   destruct (negb (is_empty (p_redirect o)) && negb (redirect_allowed c (p_redirect o)))%bool; auto.
   destruct (validate_params cfg (merge_params i o) c); auto.
-  destruct (validate_optionals cfg o c); reflexivity.
+  destruct (validate_optionals cfg o c) as [[e|e p]|]; reflexivity.
 Qed.
 
 Lemma init_auth_jar_plain w jx n now r st :
